@@ -66,6 +66,11 @@ def prefixes(tier, rnd):
         d = rnd.randrange(1, 13)
         n = "".join(rnd.choice("0123456789") for _ in range(d))
         yield ("numeric-random", "[ref: %s] m" % n, None)
+    # the literal's *source text* starts with an escape sequence (or a line continuation), then a well-formed token: the
+    # literal does not begin with "[ref: ", so no reference is present
+    for lead in ["\\\n    ", "\\\n", "\\\r\n\t", "\\t", "\\n", "\\u{5b}ref: 5] ", "\\x5bref: 5] ", "\\\\", "\\\"", "\\0", "\\u{20}", "{}", "{{", "%s", "\n", "\t", "\r\n"]:
+        for tok in ["[ref: 7] ", "[ref: 4294967295] ", "[ref: 0]"]:
+            yield ("escape-led", lead + tok + "wrapped text", None)
     # ref-like text elsewhere
     for tok in ["[ref: 5] ", "[ref: 4294967295]", "ref = 5; "]:
         yield ("elsewhere-later", "msg then " + tok + "later", None)
